@@ -45,3 +45,35 @@ CLAIMED["C14"] = (
  "property-based testing vs. independent civil-from-days arithmetic; round trips timestamp -> date-time -> timestamp; metamorphic time-as-unix",
  "Timestamps of years 1..9999 incl. negative and >= 2^31 to date / to zone, dates in every spelling as unix, times and date-time variables as unix, the three inverse forms, under default and explicit zones; printed fields recomputed independently from the instant and the offset, printed timestamps compared digit for digit.",
  _note_common, "DESIGN.md section 5, C14")
+CLAIMED["C03"] = (
+ "model-based property testing of generated straight-line programs: environment model + substitution oracle; differential between a multi-line text and a re-used Session",
+ "Generated programs of up to 14 statements over six one-/two-/three-word names (word-prefixes of each other) in random letter case: assignments of literals of seven kinds, copies, self-referential arithmetic, uses in arithmetic and in conversion / percentage / date / zone / unit / duration / unix / base sentences, broken assignments and garbage lines. An environment model stores the value observed at each binding; every line must evaluate exactly like the same line with each name replaced by a literal spelling of that value on a variable-free session; the program is also replayed line by line through one re-used Session.",
+ _note_common + " The substitution is applied only where a literal stays one operand (documented in DESIGN.md).", "DESIGN.md section 5, C03")
+CLAIMED["C04"] = (
+ "stateful property testing: calculator histories (long-lived vs freshly built calculator differential) and session histories (set_text/execute_session vs one-shot execute of the concatenated history)",
+ "A freshly built long-lived calculator evaluates up to 30 generated texts (all generators plus token soup) and then a probe; status, every slot, every AST value and the highlight tokens of the probe must equal those of a fresh calculator that only evaluates the probe. Histories of set_text + execute_session over 1-3 sessions sharing one calculator: status, slot count and slots must equal the tail of a one-shot execute of everything that session has executed.",
+ _note_common, "DESIGN.md section 5, C04")
+CLAIMED["C08"] = (
+ "metamorphic property testing: the same token-list line rendered for and evaluated under two separator conventions must give bit-identical AST values; reader check of every literal",
+ "Lines and two-line variable programs from the generators of C02, C03, C05, C06, C09-C14, kept as token lists with tagged numeric literals, evaluated under all ordered pairs of the four reading conventions; AST values must be bit-identical and every plain literal alone must denote the generator's number.",
+ _note_common, "DESIGN.md section 5, C08")
+CLAIMED["C15"] = (
+ "round-trip property testing: print -> type back -> print must be the identity on strings",
+ "Producer lines for every kind in the statement (numbers, percentages, money in the currencies with a symbol/alias, durations, times with zone, dates, unit quantities, based integers) under four separator conventions, digits 0..4, all flag settings and both languages; the printed result typed back in on the same calculator must print the same string.",
+ _note_common, "DESIGN.md section 5, C15")
+CLAIMED["C16"] = (
+ "metamorphic property testing: inserting blanks, appending comments and re-casing keywords must not change any AST value; blank/comment-only lines give an empty slot",
+ "Base lines from all generators as token lists; 0-5 extra blanks per gap and at both ends, comments drawn from printable Unicode and from the smartcalc vocabulary of both languages, letter-case patterns on currency codes/aliases, month names, zone names, connectives and variable names; exact equality of every line's AST value with the base text.",
+ _note_common, "DESIGN.md section 5, C16")
+CLAIMED["C17"] = (
+ "property-based testing / fuzzing with a validity predicate over ui_tokens plus generator-known exact spans for numbers, operators and comments",
+ "Generated lines with multi-byte words (2-, 3-, 4-byte characters, combining marks, characters whose case mapping changes length) inserted before, between and after tokens, plus free token soup: every line's tokens must satisfy 0 <= start < end <= character count, be ordered and not overlap; every generated plain number literal, operator and comment must be reported with its own kind and exactly its character span.",
+ _note_common, "DESIGN.md section 5, C17")
+CLAIMED["C18"] = (
+ "stateful model-based property testing of the registration API: generated call histories, return-value model, behaviour model, long-lived vs fresh-with-survivors differential",
+ "Histories of add_rule / delete_rule / add_dynamic_type / add_dynamic_type_item interleaved with probe evaluations; return values against a model, effect of matching / declining / deleted rules with fields bound by name, family conversions against the product of declared link factors, and after every deletion and at the end a panel of probe lines compared between the long-lived calculator and a fresh one that replays only the surviving registrations.",
+ _note_common + " Rule objects are the harness's own RuleTrait implementations; patterns respect the API's contract (>= 2 tokens, fresh keywords).", "DESIGN.md section 5, C18")
+CLAIMED["C19"] = (
+ "metamorphic property testing: a language-neutral case rendered with each language's words must evaluate to the same value; printed dates/durations parsed back with the language's own word lists",
+ "Operator words, duration words, day keywords, month names (every configured spelling, exhaustive table), date arithmetic and differences rendered per language from config.json tables keyed by operator / constant id / month number, and word-free lines (arithmetic, percentages, money, variables) evaluated unchanged in every configured language; values must be exactly equal and outputs must use the language's own words.",
+ _note_common, "DESIGN.md section 5, C19")
